@@ -28,7 +28,7 @@ def run_retr(chk, tiers, judge=None, replay=None, chunk=80):
     UNIT_PAIRS = [['s', 'ms', 1000.0, 0.001], ['ks', 'ms', 1e6, 1e-6], ['s', 'ms', 1000.0, 0.001], ['ms', 's', 0.001, 1000.0]]
     opts2 = dict(opts, dim_unit='s', tag_unit='ms', scale=1000.0, factor=0.001, unit_pairs=UNIT_PAIRS)
     rp2 = vcheck.Replayer(binary, seed=chk.seed, opts=opts2, chunk=chunk, timeout_per_line=120)
-    stride = 2 if chk.thorough else 5
+    stride = 4 if chk.thorough else 5
     for t in tiers:
         run = vcheck.TlcRun('MC_NixRetrieval', 'MC_NixRetrieval_%s.cfg' % t, workers=8, coverage=False)
         def src():
